@@ -485,6 +485,7 @@ def c02(res):
     for cfg in ("BulkDriver_W8.cfg", "BulkDriver_W1.cfg", "BulkDriver_W4.cfg"):
         res.models.append(model_check("BulkDriver", cfg, wd, workers=2))
     res.models.append(model_check("JitLower", "JitLower.cfg", wd, workers=4))
+    res.models.append(model_check("MC_JitCall", "JitCall.cfg", wd, workers=4))       # out-of-line call protocol of the SIMD assembler
     progs = gen_programs(res, wd)
     trace = os.path.join(wd, "trace.ndjson")
     if not run_recorder(res, "c02", [progs, res.tier, trace], wd):
